@@ -212,6 +212,33 @@ def close_values(a, b, rel, scale=None):
     return True, "ok"
 
 
+def matches_at_resolution(live_val, pred_val):
+    """Exact equality of a live value with a predicted one, up to the library's documented
+    resolution: a rational coordinate whose exact denominator exceeds 10**9 may be stored
+    as limit_denominator(10**9) of it (Point2D re-normalises a point whenever it is passed
+    through Point2D(...)).  Types must agree (no silent float)."""
+    if isinstance(live_val, str) or isinstance(pred_val, str):
+        return live_val == pred_val
+    if live_val[0] != pred_val[0]:
+        return False
+    if live_val[0] in ("S", "J"):
+        if structure(live_val) != structure(pred_val):
+            return False
+        for sa, sb in zip(live_val[1], pred_val[1]):
+            for pa, pb in zip(sa, sb):
+                for a, b in zip(pa, pb):
+                    if _bit(a) == _bit(b):
+                        continue
+                    if isinstance(a, RAT) and isinstance(b, RAT) and Fraction(b).denominator > 10**9 \
+                            and Fraction(a) == Fraction(b).limit_denominator(10**9):
+                        continue
+                    return False
+        return True
+    if len(live_val[1]) != len(pred_val[1]):
+        return False
+    return all(matches_at_resolution(a, b) for a, b in zip(live_val[1], pred_val[1]))
+
+
 def structure(val):
     """Kind, number of curves, segments and degrees (what a transformation must keep)."""
     if isinstance(val, str):
